@@ -35,7 +35,8 @@ Oracle: the property itself on the real output — every equation (sparse: every
   instruction) holds, the result equals the least fixpoint computed here by naive Kleene / round-robin
   iteration and does not depend on the worklist order; the lattice laws are evaluated with the real
   Merge/Equals on all triples of generated elements (all 25 nilness values exhaustively).
-Known finding: key=sparse-nonvalue-mapping-nil-deref (findings.d/C13.txt).
+Fixed defect (4306c1d): a changed mapping of a non-value instruction made sparse.Forward dereference nil referrers; such
+programs are part of the generated population, a recurrence is reported as a violation (no finding is listed).
 """
 import json
 import os
@@ -1271,8 +1272,8 @@ def run(ctx):
         "value agree, mappings read only their read sets, each mapping is stable or every reader of the mapped value is a "
         "referrer of the mapping instruction, initial states below the mapped ones) is probed on every dump by "
         "sparse_hypotheses(); programs violating it would be counted, not judged (none so far)",
-        "known finding sparse-nonvalue-mapping-nil-deref: programs in which a non-value instruction (Referrers() == nil) has a "
-        "mapping whose state changes make the real solver panic; they are reported as KNOWN-FINDING and carry no other information",
+        "programs in which a non-value instruction (Referrers() == nil, e.g. *ir.Return) has a mapping whose state changes "
+        "used to make the real solver panic (fixed by 4306c1d); they stay in the population and a panic is a violation",
         "Python Kleene / round-robin iteration and the op/table interpreters in checks/c13.py are the oracle and are trusted",
     ]
 
